@@ -53,6 +53,8 @@ def havoc_heap(p, oid, tag, attrs=()):
         p.heap[oid] = ('dict', fresh(tag + 'd', c[1].sort()), fresh(tag + 'v', c[2].sort()), fresh(tag + 'o', c[3].sort()))
     elif c[0] == 'bytesio':
         p.heap[oid] = ('bytesio', c[1], fresh(tag + 'pos', IntSort()))
+    elif c[0] == 'chunkfile':
+        p.heap[oid] = ('chunkfile', c[1], fresh(tag + 'k', IntSort()))
     elif c[0] == 'obj':
         d = {k: (havoc_value(v, tag + k) if k in attrs else v) for k, v in c[1].items()}
         p.heap[oid] = ('obj', d) + tuple(c[2:])
